@@ -323,9 +323,52 @@ def make_units(case_list, tier, chunk, schemes_=None, grid_fn=None):
     return us
 
 
-def build_db(seed, name, label, cfg, profile, kwlen, relation):
+def build_db(seed, name, label, cfg, profile, kwlen, relation, awkward=True):
     from mc import det
     kwlen = min(kwlen, kw_limit(name, cfg))
     g = det.rng(seed, 'db', name, label, tuple(profile), kwlen, relation)
-    db = domains.make_db(profile, cfg.get('param_identifier_size', 8), kwlen, g, relation)
+    db = domains.make_db(profile, cfg.get('param_identifier_size', 8), kwlen, g, relation, awkward)
     return db, finalize_cfg(name, cfg, db), g
+
+
+def ske_len(msg_len):
+    """AES-CBC wrapper: IV + PKCS7-padded message"""
+    return 16 + 16 * (msg_len // 16 + 1)
+
+
+def split(b, n):
+    return [b[i:i + n] for i in range(0, len(b), n)]
+
+
+def cipher_entries(name, cfg, obj):
+    """the SKE-ciphertext-bearing (or ciphertext-shaped filler) entries of an unpickled EDB, by position"""
+    ids = cfg.get('param_identifier_size', 8)
+    out = []
+    if name in ('CJJ14.PiBas', 'CJJ14.PiPack'):
+        out += list(obj.values())
+    elif name in ('CJJ14.PiPtr', 'CJJ14.Pi2Lev'):
+        D, A = obj
+        out += list(D.values()) + [x for x in A if x is not None]
+    elif name == 'CGKO06.SSE1':
+        A, T = obj
+        out += list(A)
+    elif name == 'CGKO06.SSE2':
+        pass
+    elif name == 'CT14.Pi':
+        for i, ht in enumerate(obj):
+            for v in ht.values():
+                out += split(v, len(v) // (2 ** i))
+    elif name == 'ANSS16.Scheme3':
+        HT_S, HT_L = obj
+        out += list(HT_S.values())
+        for i, ht in enumerate(HT_L):
+            for v in ht.values():
+                out += split(v, len(v) // (2 ** i))
+    elif name == 'DP17.Pi':
+        HT, A_dict = obj
+        cl = ske_len(ids + cfg['param_lambda'])
+        for i, buckets in A_dict.items():
+            for b in buckets:
+                out += split(b, cl)
+    # only entries that can be AES-CBC ciphertexts (IV + >= 1 block); shorter fillers are C05's business
+    return [e for e in out if isinstance(e, (bytes, bytearray)) and len(e) >= 32 and len(e) % 16 == 0]
